@@ -9,8 +9,6 @@ import (
 	"encoding/json"
 	"fmt"
 	"io"
-	"math"
-	"math/big"
 	"math/rand"
 	"net/http"
 	"net/http/httptest"
@@ -44,7 +42,7 @@ func init() {
 			"a header that is present but holds no range is not judged (the statement speaks of a missing header only)",
 			"header.ParseAccept is judged on what the selection rule needs: one spec per range in order with the range's type, Q == 0 exactly for quality 0, and Q ordered/equal as the exact decimals are",
 			"a choice mismatch of Negotiate*/the handler on a header whose ParseAccept result already failed its oracle is attributed to that parse violation and counted, not reported under a second signature",
-			"NegotiateContentEncoding: judged for result in offers/identity/\"\", maximum q and q=0; tie-breaks and the no-header result are not stated for encodings and not judged",
+			"NegotiateContentEncoding: judged for result in offers/identity/\"\", maximum q, q=0, and earlier offer among offers tied on (q, specificity); the specificity tie-break and the no-header result are not stated for encodings and not judged",
 			"API handler: offers are the observed MatchedRoute.Produces (declared produces plus the API default); 406 <=> nothing in that list is acceptable; Content-Type is judged against the statement's offer order (produces without the default, default last)",
 			"ParseList, ParseValueAndParams, ParseAccept2, ParseTime: totality only",
 		},
@@ -78,58 +76,14 @@ func (c *Case) lines() []string {
 	return l
 }
 
-// ---- oracle for ParseAccept ----
-
-func ratOf(f float64) *big.Rat { return new(big.Rat).SetFloat64(f) }
-
 // checkParse compares ParseAccept's result with the strict parse of the same text.
 func checkParse(specs []header.AcceptSpec, ranges []accept.Range) (mode, detail string) {
-	if len(specs) != len(ranges) {
-		return "parse-wrong-ranges", fmt.Sprintf("ParseAccept returned %d specs %v for %d ranges", len(specs), specs, len(ranges))
+	vals := make([]string, len(specs))
+	qs := make([]float64, len(specs))
+	for i, s := range specs {
+		vals[i], qs[i] = s.Value, s.Q
 	}
-	for i := range ranges {
-		if specs[i].Value != ranges[i].Type {
-			return "parse-wrong-ranges", fmt.Sprintf("spec #%d is %q, range #%d is %q", i, specs[i].Value, i, ranges[i].Type)
-		}
-	}
-	qs := make([]*big.Rat, len(ranges))
-	for i := range ranges {
-		qs[i] = ranges[i].Q()
-		f := specs[i].Q
-		if math.IsNaN(f) || math.IsInf(f, 0) {
-			return "parse-wrong-q", fmt.Sprintf("range #%d %q: q %q parsed as %v", i, ranges[i].Type, ranges[i].QText, f)
-		}
-		if (qs[i].Sign() == 0) != (f == 0) {
-			return "parse-wrong-q", fmt.Sprintf("range #%d %q: q text %q denotes %s but parsed as %v (zero-ness differs)", i, ranges[i].Type, ranges[i].QText, qs[i].FloatString(8), f)
-		}
-		if f < 0 {
-			return "parse-wrong-q", fmt.Sprintf("range #%d %q: q text %q parsed as negative %v", i, ranges[i].Type, ranges[i].QText, f)
-		}
-	}
-	for i := range ranges {
-		for j := i + 1; j < len(ranges); j++ {
-			want := qs[i].Cmp(qs[j])
-			got := 0
-			switch {
-			case specs[i].Q < specs[j].Q:
-				got = -1
-			case specs[i].Q > specs[j].Q:
-				got = 1
-			}
-			if want != got {
-				return "parse-wrong-q", fmt.Sprintf("ranges #%d (q=%s -> %v) and #%d (q=%s -> %v): exact order %d, parsed order %d",
-					i, qtext(ranges[i]), specs[i].Q, j, qtext(ranges[j]), specs[j].Q, want, got)
-			}
-		}
-	}
-	return "", ""
-}
-
-func qtext(rg accept.Range) string {
-	if !rg.HasQ {
-		return "(none)"
-	}
-	return rg.QText
+	return accept.CheckParse(vals, qs, ranges)
 }
 
 // ---- evaluation of one function-level case ----
@@ -344,10 +298,12 @@ func evalEnc(lines []string, offers []string) (v verdict) {
 	case !v.member:
 		v.nMode = "not-an-offer"
 	case gotIsOffer:
-		gq, _, _, gok := accept.BestFor(p.Ranges, v.got, false)
+		gq, gsp, _, gok := accept.BestFor(p.Ranges, v.got, false)
 		switch {
 		case gok && gq.Cmp(want.Q) < 0:
 			v.nMode = "lower-q-preferred"
+		case gok && gq.Cmp(want.Q) == 0 && gsp == want.Spec && v.got != want.Offer:
+			v.nMode = "later-offer-preferred" // full tie on (q, specificity): the earlier offer is due
 		case gok:
 		case v.got == "identity": // identity standing in as the default
 			if !want.None {
